@@ -112,7 +112,9 @@ func HostileString(r *rand.Rand, max int) string {
 		case 8:
 			b.WriteRune(randScalar(r, 0x10000, 0x10ffff))
 		case 9:
-			b.WriteString([]string{"\\u2028", "\\n", "<script>", "&amp;", "\\\"", "  ", "]]", "\"}", "\x00\x00"}[r.IntN(9)])
+			// texts that look like escapes or format directives once they are encoded
+			b.WriteString([]string{"\\u2028", "\\n", "<script>", "&amp;", "\\\"", "  ", "]]", "\"}", "\x00\x00",
+				"\\u0026", "\\u003c", "\\u003e", "\\u0000", "\\ud800", "%s", "%d%%", "%!", "\\\\u0026"}[r.IntN(18)])
 		}
 	}
 	s := b.String()
